@@ -18,7 +18,9 @@ import (
 // scenarios whose fault is real (missing directories, deleted files, /dev/full, RLIMIT_FSIZE).
 
 type c20Params struct {
-	N int `json:"n"` // number of batches the scenario list is dealt over
+	N      int             `json:"n"`                // number of batches the scenario list is dealt over
+	Strace string          `json:"strace,omitempty"` // scenario whose strace cross-check this batch runs (thorough)
+	Child  *c20ChildParams `json:"child,omitempty"`  // this process is a traced child of a strace batch
 }
 
 const c20MaxOcc = 40
@@ -328,11 +330,24 @@ func init() {
 			for i := 0; i < n; i++ {
 				bs = append(bs, fw.Batch{Index: i, Flavour: "plain", Params: json.RawMessage(fmt.Sprintf(`{"n":%d}`, n)), TimeoutS: 1800})
 			}
+			if tier == fw.Thorough {
+				for _, name := range c20StraceScenarios {
+					bs = append(bs, fw.Batch{Index: len(bs), Flavour: "plain", Params: mustRaw(c20Params{Strace: name}), TimeoutS: 3600})
+				}
+			}
 			return bs
 		},
 		Run: func(w *fw.W, b fw.Batch) {
 			var p c20Params
 			json.Unmarshal(b.Params, &p)
+			if p.Child != nil {
+				c20StraceChild(w, p.Child.Scenario)
+				return
+			}
+			if p.Strace != "" {
+				c20StraceSweep(w, p.Strace)
+				return
+			}
 			if p.N <= 0 {
 				p.N = 1
 			}
